@@ -101,6 +101,8 @@ def check(run, prog, tier):
     run.rule("C02-C", "Lindblad tensor equals the GKSL generator (TA)", minimum=1)
     run.rule("C02-D", "rotating-wave bookkeeping", minimum=10)
     run.rule("C02-E", "no in-place update of the caller's state", minimum=14)
+    run.rule("C02-F", "pure-dephasing factors are derived from the time step in force (derived-state "
+                      "freshness)", minimum=2)
 
     cls = prog.cls(RDM)
     nloops = 0
@@ -150,6 +152,10 @@ def check(run, prog, tier):
     if nsv < 3:
         raise AnalysisError("only %d Taylor loops recognised in svpropagator (3 confirmed)" % nsv)
     _refinement_rule(run, prog)
+    from .. import fresh
+    r = fresh.check(run, "C02-F", prog, cls, "_BOOT_DEPH", "pure dephasing")
+    if "dt" not in r["inputs"] or not r["derived"]:
+        raise AnalysisError("_BOOT_DEPH no longer derives its factors from self.dt: %s" % r)
     rule_C(run, prog)
     rule_D(run, prog, routines + [f for n, f in svc.methods.items() if "short_exp" in n])
     rule_E(run, prog, routines + [f for n, f in svc.methods.items() if "short_exp" in n])
